@@ -42,6 +42,22 @@ def gen(tier, rng):
                                                 src_lay=lay_with_guard(slay, guard) if slay else None,
                                                 dst_lay=lay_with_guard(dlay, guard) if dlay else {"k": "image"}, api=api, log=("digest",),
                                                 chk=("pipeline", "ret_ok", "outside", "srcsame") + (("memo_exact",) if j else ()), g=g))
+    # images large enough for the rayon layer to cut source and destination views into bands (4 threads): the band
+    # splitting of every container kind must hand out the same pixels
+    for (pt, alpha, alg, flt, geo, box) in (("U16x3", False, "conv", "Bilinear", (130, 110, 70, 60), None), ("U8x4", True, "conv", "Lanczos3", (120, 100, 64, 100), None),
+                                            ("F32x2", True, "conv", "CatmullRom", (110, 120, 60, 50), (20, 40, 80, 70)), ("U8", False, "interp", "Hamming", (128, 96, 128, 50), None),
+                                            ("U16x2", True, "ss", "Box", (140, 120, 40, 40), None)):
+        n += 1
+        g += 1
+        seed = rng.randint(1, 10 ** 9)
+        sw, sh, dw, dh = geo
+        layouts = [("dyn", p) for p in DYN_PAIRS + EXTRA_DYN] + [("typed", p) for p in TYPED_PAIRS + EXTRA_TYPED]
+        for j, (api, (slay, dlay)) in enumerate(layouts):
+            cases.append(rz.resize_case(pt, sw, sh, dw, dh, alg=alg, flt=flt, m=2, alpha=alpha, box=box, Q=1, cpu=rz.pick(n, 126, rz.CPUS),
+                                        src_c={"g": "rand", "seed": seed, "flo": 0.0, "fhi": 1.0},
+                                        src_lay=lay_with_guard(slay, 1) if slay else None,
+                                        dst_lay=lay_with_guard(dlay, 1) if dlay else {"k": "image"}, api=api, threads=4, log=("digest",),
+                                        chk=("pipeline", "ret_ok", "outside", "srcsame") + (("memo_exact",) if j else ()), g=g))
     # Nearest at geometries where a row (column) centre falls exactly on a pixel boundary although the scale is not a
     # binary fraction: there the chosen row is decided by the last bit of a floating-point expression, so containers whose
     # row iterators evaluate the position differently would disagree (the tie itself may go either way -- C11 -- but all
